@@ -75,7 +75,10 @@ def _grid(d, h, w):
                                      'TRUE?', 'e5', '1,5x']))
             elif t == 8:
                 # zeros and integer-valued floats
-                row.append(d.choice([0, 0.0, -0.0, float(base + 3 * k)]))
+                row.append(d.choice([0, 0.0, -0.0, float(base + 3 * k),
+                                     # whole numbers whose PRODUCTS exceed
+                                     # 2^63 (exact in floating point sums)
+                                     3037000500, 4000000001, -5000000000]))
             elif t == 9:
                 # a NUMBER PRODUCED BY A FORMULA: ['f', source, value]
                 v = base + 3 * k
